@@ -6,10 +6,14 @@ Require Import ExtrOcamlBasic.
 From PVGen Require Import Gen GenKeep Defaults GenAsync Own.
 From PVGen Require Import Lit LitSpec LitClass.
 
+(* gen-C: the specifications view / viewk / reenc, evaluated by the runner on the tree the runtime's reader finds *)
+From PVGen Require Import EvoSpec KeepSpec.
+
 Extraction "model.ml"
   Z.add Z.mul Z.sub Z.opp Z.div Z.modulo Z.ltb Z.eqb Z.of_nat Z.to_nat Z.of_N Pos.succ
   b2z z2b
   gen_encode gen_size gen_decode_top gen_decode_keep_top default_of resolve ttype_of_ty
   gen_decode_async_top own_decode_top own_decode_keep_top heap_val owns_heap owns_heap_keep
   default_val_lit lit_value_top well_typed_lit pclass_top class_free_schema lits_typed const_value rust_default
-  expected_default proj item_cty erase.
+  expected_default proj item_cty erase
+  view viewk reenc read_val write_val flat.
